@@ -33,7 +33,7 @@ m = dict(
                baseline_off_cmd='cd /repo && /venv/bin/python -m pytest -ra -q -p no:cacheprovider --timeout=900 --continue-on-collection-errors',
                source_commits=HOOK_COMMITS, add_only=True),
     engines=[dict(name='lean4+correspondence', path='lean/ + harness/', serves_properties=sorted(CHECKS),
-                  kind_free_text='hand-written Lean 4 model + theorems (lake project, Mathlib modules in proof files only); '
+                  kind_free_text='hand-written Lean 4 model + theorems (lake project, Mathlib modules in proof files only), plus lean/Generated/Rates.lean regenerated from the Python AST of coalescent_models.py by harness/extract_rates.py on every C14 run (GenBridge proves generated = model); '
                                  'Python correspondence check driving the compiled model (pgdriver) and the real PhaseGen on the same inputs')],
     checks=checks,
     notes='See DESIGN.md. Exit codes: 0 held, 1 violation, 2 infrastructure/timeouts. VERIF_SEED seeds every random choice; '
